@@ -317,7 +317,7 @@ def main(argv):
     elif rp:
         hs = []
     else:
-        n = 250 if ck.tier == "quick" else 4000
+        n = 180 if ck.tier == "quick" else 4000
         hs = corpus(lanes) + [gen_history(ck.rng, lanes) for _ in range(n)]
 
     def nontrivial(h, impl):
@@ -349,7 +349,7 @@ def main(argv):
         if build_replay:
             jobs = [(parse_build_replay(rp), "replay")]
         else:
-            npairs = 4 if ck.tier == "quick" else 60
+            npairs = 3 if ck.tier == "quick" else 60
             jobs = []
             for i in range(npairs):
                 f = fam[i] if i < len(fam) and ck.tier != "quick" else ck.rng.choice(fam[:3] if i < 2 else fam)
